@@ -10,12 +10,16 @@ from typing import Any
 from _pytask.collect_utils import collect_dependency
 from _pytask.dag import create_dag_from_session
 from _pytask.dag_utils import TopologicalSorter
+from _pytask.dag_utils import descending_tasks
+from _pytask.mark import Mark
+from _pytask.mark_utils import has_mark
 from _pytask.models import NodeInfo
 from _pytask.node_protocols import PNode
 from _pytask.node_protocols import PProvisionalNode
 from _pytask.node_protocols import PTask
 from _pytask.node_protocols import PTaskWithPath
 from _pytask.nodes import Task
+from _pytask.outcomes import TaskOutcome
 from _pytask.reports import ExecutionReport
 from _pytask.tree_util import PyTree
 from _pytask.tree_util import tree_map_with_path
@@ -78,6 +82,7 @@ def recreate_dag(session: Session, task: PTask) -> None:
     """
     try:
         session.dag = create_dag_from_session(session)
+        _skip_descendants_of_skipped_tasks(session)
         session.scheduler = TopologicalSorter.from_dag_and_sorter(
             session.dag, session.scheduler
         )
@@ -86,6 +91,28 @@ def recreate_dag(session: Session, task: PTask) -> None:
         report = ExecutionReport.from_task_and_exception(task, sys.exc_info())
         session.execution_reports.append(report)
         session.should_stop = True
+
+
+def _skip_descendants_of_skipped_tasks(session: Session) -> None:
+    """Skip tasks which were added to the DAG below an already skipped task.
+
+    When a task is skipped, all its descending tasks are marked to be skipped, too. Tasks
+    which are created later by a task generator are not among them.
+
+    """
+    for report in session.execution_reports:
+        if report.outcome != TaskOutcome.SKIP:
+            continue
+        for name in descending_tasks(report.task.signature, session.dag):
+            descending_task = session.dag.nodes[name]["task"]
+            if not has_mark(descending_task, "skip"):
+                descending_task.markers.append(
+                    Mark(
+                        "skip",
+                        (),
+                        {"reason": f"Previous task {report.task.name!r} was skipped."},
+                    )
+                )
 
 
 def collect_provisional_products(session: Session, task: PTask) -> None:
